@@ -684,6 +684,24 @@ func (x *dbx) queryBounds() []int64 {
 	if x.cfg.W > 0 {
 		set[F-x.cfg.W/2] = true
 	}
+	// data-driven end points: oldest sample, a sample in the middle (and the point just before
+	// it), so that ranges ending inside old (e.g. out-of-order) data are queried too
+	var all []int64
+	for _, s := range x.m.series {
+		for t := range s.samples {
+			all = append(all, t)
+		}
+	}
+	if len(all) > 0 {
+		sort.Slice(all, func(i, j int) bool { return all[i] < all[j] })
+		set[all[0]] = true
+		mid := all[len(all)/2]
+		set[mid] = true
+		set[mid-1] = true
+		if q := all[len(all)/4]; q != all[0] {
+			set[q] = true
+		}
+	}
 	out := make([]int64, 0, len(set))
 	for v := range set {
 		out = append(out, v)
@@ -842,7 +860,9 @@ func dbxStarts(w int64) [][]string {
 		st = append(st,
 			[]string{"app/s1/F+1/f", "app/s1/F-Wh/f", "app/s1/F-Wh/f", "cmpooo", "app/s1/F-Wh/f", "app/s1/F+160/f", "app/s1/F-Wh/h"},
 			// two m-mapped out-of-order chunks, the later one holding OLDER data, then the head max moves on
-			[]string{"app/s1/F+1/f", "app/s1/F-1/f", "app/s1/F-2/f", "app/s1/F-3/f", "app/s1/F-4/f", "app/s1/F-5/f", "app/s1/F-30/f", "app/s1/F-31/f", "app/s1/F-32/f", "app/s1/F-33/f", "app/s1/F-34/f", "app/s1/F+160/f"},
+			// (out-of-order chunk capacity is 4: first chunk F-10..F-13, second chunk F-30..F-33, newest
+			// sample F-2 stays in the in-memory out-of-order chunk)
+			[]string{"app/s1/F+1/f", "app/s1/F-10/f", "app/s1/F-11/f", "app/s1/F-12/f", "app/s1/F-13/f", "app/s1/F-30/f", "app/s1/F-31/f", "app/s1/F-32/f", "app/s1/F-33/f", "app/s1/F-2/f", "app/s1/F+160/f"},
 			[]string{"app/s1/F+1/f", "app/s2/F+1/f", "app/s1/F-10/f", "app/s2/F-20/h", "app/s1/F-11/f", "mmap", "app/s1/F+1/f", "app/s2/F-Wh/f"},
 		)
 	}
